@@ -23,10 +23,12 @@ class KNXIPHeader:
 
     def from_knx(self, data: bytes) -> int:
         """Parse/deserialize from KNX/IP raw data."""
+        if data and data[0] != KNXIPHeader.HEADERLENGTH:
+            raise CouldNotParseKNXIP("wrong connection header length")
+        if len(data) > 1 and data[1] != KNXIPHeader.PROTOCOLVERSION:
+            raise CouldNotParseKNXIP("wrong protocol version")
         if len(data) < KNXIPHeader.HEADERLENGTH:
             raise IncompleteKNXIPFrame("wrong connection header length")
-        if data[0] != KNXIPHeader.HEADERLENGTH:
-            raise CouldNotParseKNXIP("wrong connection header length")
         # set immediately, as we need it for tcp stream parsing before raising exception
         self.total_length = data[4] * 256 + data[5]
         if data[1] != KNXIPHeader.PROTOCOLVERSION:
